@@ -3,12 +3,47 @@ Used to fold writer -> reader round trips of the snapshot codecs on model inputs
 import ast
 from .pyfacts import Lit, NotLiteral, FuncFold, FactError, FOLDED_NONE
 
+class SliceLit:
+    """A slice passed to a folded __getitem__/__setitem__ (attribute access start/stop/step is allowed on it)."""
+    _sa_fold_ok = True
+    def __init__(self, s):
+        self.start, self.stop, self.step = s.start, s.stop, s.step
+
+class Closure:
+    """A folded lambda: body evaluated in the environment captured at creation."""
+    _sa_fold_ok = True
+    def __init__(self, node, env, folder, cls, self_obj):
+        self.node, self.env, self.folder, self.cls, self.self_obj = node, dict(env), folder, cls, self_obj
+    def __call__(self, *args):
+        env = dict(self.env)
+        for a, v in zip(self.node.args.args, args):
+            env[a.arg] = v
+        return Lit(self.folder.repo, self.folder.modname, env, self.folder.hook(self.cls, self.self_obj)).ev(self.node.body)
+
+class FakeFile:
+    _sa_fold_ok = True
+    def __init__(self, name, mode, sink):
+        self.name, self.mode, self.sink = name, mode, sink
+    def write(self, data):
+        self.sink.setdefault(self.name, bytearray()).extend(data)
+
 class Inst:
     _sa_fold_ok = True
-    def __init__(self, modname, clsname):
-        self._mod, self._cls = modname, clsname
+    def __init__(self, modname, clsname, folder=None):
+        self._mod, self._cls, self._folder = modname, clsname, folder
     def __repr__(self):
         return '<%s.%s>' % (self._mod, self._cls)
+    def _dunder(self, name, *args):
+        c, m = self._folder.find_method(self._cls, name)
+        if m is None:
+            raise TypeError('%r has no %s' % (self, name))
+        return self._folder.call_method(self, c, m, list(args), {})
+    def __getitem__(self, idx):
+        return self._dunder('__getitem__', SliceLit(idx) if isinstance(idx, slice) else idx)
+    def __setitem__(self, idx, value):
+        return self._dunder('__setitem__', SliceLit(idx) if isinstance(idx, slice) else idx, value)
+    def __len__(self):
+        return self._dunder('__len__')
 
 class ClassFolder:
     def __init__(self, repo, modname, extra_hook=None):
@@ -16,6 +51,7 @@ class ClassFolder:
         self.mod = repo.mod(modname)
         self.extra_hook = extra_hook
         self.depth = 0
+        self.files = None        # name -> bytearray written through open(name, 'wb') when set to a dict
 
     # class helpers
     def bases(self, clsname):
@@ -61,8 +97,19 @@ class ClassFolder:
                         except FactError:
                             pass
                 return None
+            if isinstance(n, ast.Lambda):
+                return Closure(n, lit.env, self, cur_cls, cur_self)
             if isinstance(n, ast.Call):
                 fn = n.func
+                if isinstance(fn, ast.Name) and fn.id == 'hasattr' and len(n.args) == 2:
+                    obj, name = lit.ev(n.args[0]), lit.ev(n.args[1])
+                    if isinstance(obj, Inst):
+                        folder = self if obj._mod == self.modname else ClassFolder(self.repo, obj._mod, self.extra_hook)
+                        return hasattr(obj, name) or folder.find_method(obj._cls, name)[1] is not None
+                    return hasattr(obj, name)
+                if isinstance(fn, ast.Name) and fn.id == 'open' and fn.id not in lit.env and self.files is not None:
+                    args = lit._seq(n.args)
+                    return FakeFile(args[0], args[1] if len(args) > 1 else 'r', self.files)
                 # isinstance
                 if isinstance(fn, ast.Name) and fn.id == 'isinstance' and len(n.args) == 2:
                     obj = lit.ev(n.args[0])
@@ -89,8 +136,11 @@ class ClassFolder:
                         target = lit.ev(fn)
                     except NotLiteral:
                         target = None
+                    if isinstance(target, Closure):
+                        r = target(*lit._seq(n.args))
+                        return FOLDED_NONE if r is None else r
                     if isinstance(target, tuple) and target and target[0] == 'cls':
-                        inst = Inst(self.modname, target[1])
+                        inst = Inst(self.modname, target[1], self)
                         c, m = self.find_method(target[1], '__init__')
                         if m is not None:
                             self.call_method(inst, c, m, lit._seq(n.args), {k.arg: lit.ev(k.value) for k in n.keywords if k.arg})
@@ -122,6 +172,7 @@ class ClassFolder:
                             return self._run(m, [a.arg for a in m.args.args], args, {}, c, None)
             return None
         f.wants_lit = True
+        f.override_names = getattr(self.extra_hook, 'override_names', ())
         return f
 
     def _run(self, fn, params, args, kw, cls, self_obj):
@@ -151,7 +202,7 @@ class ClassFolder:
         return folder._run(fn, [a.arg for a in fn.args.args], list(args), kw or {}, None, None)
 
     def new(self, clsname, *args, **kw):
-        inst = Inst(self.modname, clsname)
+        inst = Inst(self.modname, clsname, self)
         c, m = self.find_method(clsname, '__init__')
         if m is not None:
             self.call_method(inst, c, m, list(args), kw)
